@@ -19,6 +19,14 @@ ASSUMPTIONS = [
     "functools caches cleared before every case; 4 s limit per real-code call",
 ]
 
+KNOWN_SINGLE = "single-version-precision-lt-3"
+
+
+def has_short_single_version(c: Any) -> bool:
+    from poetry.core.constraints.version import Version
+    return any(isinstance(x, Version) and x.precision < 3 for x in c.flatten())
+
+
 GRID = []
 for mj, minors in ((2, [6, 7]), (3, list(range(0, 14))), (4, [0, 1])):
     for mn in minors:
@@ -80,7 +88,7 @@ def check_ranges(ctx: core.Ctx, ranges: list[str], stream: str) -> None:
         pb = MC.split_bits(tb)
         bad = [j for j in range(len(ENVS)) if (pb[j] == "1") != want[j]]
         if bad:
-            ctx.violate(f"marker-vs-range:{r}", f"range {r!r} -> {t!r}: poetry-core evaluates {pb[bad[0]]} on {GRID[bad[0]]}, the range says {want[bad[0]]}", {"range": r, "py": GRID[bad[0]]})
+            ctx.violate(KNOWN_SINGLE if has_short_single_version(c) else f"marker-vs-range:{r}", f"range {r!r} -> {t!r}: poetry-core evaluates {pb[bad[0]]} on {GRID[bad[0]]}, the range says {want[bad[0]]}", {"range": r, "py": GRID[bad[0]]})
             continue
         if rf[0] != "ok":
             ctx.violate(f"ref-rejects:{r}", f"marker {t!r} made from range {r!r} is rejected by the reference parser", {"range": r})
